@@ -752,7 +752,8 @@ class ResNetwork(GeoNetwork):
         Is = It = FIELD(1.0)
         return _vertex_current_flow_betweenness(
             self.N, Is, It,
-            to_cy(self.get_admittance(), FIELD), to_cy(self.get_R(), FIELD), i)
+            to_cy(self.get_admittance(), DFIELD),
+            to_cy(self.get_R(), DFIELD), i)
 
     def edge_current_flow_betweenness(self):
         """The electrial version of Newmann's edge betweeness
@@ -782,7 +783,8 @@ class ResNetwork(GeoNetwork):
 
         return _edge_current_flow_betweenness(
             self.N, Is, It,
-            to_cy(self.get_admittance(), FIELD), to_cy(self.get_R(), FIELD))
+            to_cy(self.get_admittance(), DFIELD),
+            to_cy(self.get_R(), DFIELD))
 
 
 ###############################################################################
